@@ -328,6 +328,16 @@ def build(tier):
             'this tensor (offset indices(i) * P_1, in range by the asserted precondition on the index values) is copied to row i of the output (offset i * P_1), whole rows of equal length, '
             'from this tensor\'s buffer to the output\'s; indexed(indices, mem&): the output has EXACTLY the dims (indices.size(), dims[1..]) -- every extent pinned, not the element count -- '
             'and the callee precondition subtensor.dims() == (indices.size(), dims[1..]) holds at the inner call; indexed(indices): the returned tensor has exactly those dims',
+            'tensor.h indexed, GATHER POSTCONDITION at a ghost position (ranks 1..4, SMT; tmodel.gather_clause): for an arbitrary output row g (unconstrained ghost constant) and the value '
+            'ig the index list holds there, 0 <= g < indices.size() => row g of the result holds row ig of this tensor -- for every index list, lists WITH DUPLICATES included (the list is a '
+            'constant: a function of the position, every read of it is tied to ig at position g and to the earlier reads at equal positions).  indexed(indices, map): loop invariant "every '
+            'output row below i holds row indices(row)" on the real loop (row views remember which first-axis row they are: from the proved view clauses; rank 1: the element copies); '
+            'indexed(indices, mem&) and indexed(indices): from the callee clause, or from whatever copies the body itself performs (a whole-tensor copy vector() = vector() sets row g := row g: '
+            'a "sorted full-length list => plain copy" fast path is refuted by this clause, seed C16-9)',
+            'tensor.h on back end B, vocabulary added: a local Eigen::Map (auto m = t.matrix()) is the view itself; matrix() of reshape(n, -1) and row(i) of such a matrix (row k of the '
+            'rank-2 reshape is first-axis row k of the tensor under the carried condition n == dims[0]); begin() / end() of a tensor; std::is_sorted over the whole index list.  The part of the '
+            'reshape precondition whose violation is a crash is a call-site obligation of its own (reshape_div0: an inferred -1 divides size() by a NON-ZERO product of the other sizes): a gather '
+            'rewritten through reshape(size<0>(), -1).matrix() / subtensor.reshape(indices.size(), -1) is refuted there for the empty index list / the tensor without rows (seed C16-8)',
             'integral.h: integral_t<1>::get for int8 -> int64 and int32 -> int64 (CBMC, real arrays of symbolic length <= 10^6, --conversion-check / --signed-overflow-check ON): '
             'out(0) == in(0), out(g) == out(g-1) + in(g) at a ghost index, every access in bounds, no overflow and no narrowing of the running sum; ranks 2 and 3 (SMT): the index pattern of '
             'the recursion (slice i0 of the input integrated into slice i0 of the output, then output row i0-1 added to output row i0, whole rows, i0 >= 1 only, in that order); integral(): '
@@ -351,7 +361,8 @@ def build(tier):
             '[pointer, pointer + extent) is addressable memory of that object; operator()(index) returns data() + index inside the object. The offsets\' contracts are ASSUMED there exactly as '
             'proved on the SMT side: the C requires-clause is generated from the same python clause functions (tmodel.ens_view / ens_slice) with the C names substituted',
             'storage.h on REAL heap objects (CBMC, double; rank 1: every operation below; rank 2, quick tier: sizes / dims constructors, owning <- / = constant and mutable views, owning copy / move '
-            'assignment, resize(sizes) / resize(dims), mapping <- owning, mapping element copies copy<mapping> / = owning, tensor_mem_t = tensor_map_t, the defaulted move assignment of tensor_map_t, '
+            'assignment, resize(sizes) / resize(dims), mapping <- owning, mapping element copies copy<mapping> / = owning, tensor_mem_t = tensor_map_t / tensor_cmap_t, the five converting constructors of '
+            'tensor_t (tensor_mem_t <- cmap / map, tensor_cmap_t <- mem / map, tensor_map_t <- mem), the defaulted move assignment of tensor_map_t, '
             'owning = view INSIDE its own buffer; rank 3, quick tier: owning = constant view, resize(dims), copy<mapping>; thorough tier: every operation at ranks 2 and 3.  At ranks >= 2 size() is '
             'the NAMED product of the extents: an uninterpreted function of the extent tuple, so equal dims give equal sizes and nothing else is known -- an allocation / copy of size<0>() or dims[0] '
             'coefficients instead of size() is refuted at rank 2 while it is invisible at rank 1; specs/C16/storage.h, sspec.py): every constructor (default, sizes, dims, converting, copy, move), every assignment operator '
@@ -361,10 +372,20 @@ def build(tier):
             'of exactly size() coefficients distinct from the source\'s block, a mapping destination aliases the source\'s data pointer, resize keeps block and contents when the size is '
             'unchanged; every access under --pointer-check (no read of released memory).  Owning = view is additionally checked with the source view INSIDE the destination\'s own buffer '
             '(t = t.slice(b, e), t = std::as_const(t).slice(b, e); ghost offset) and owning copy / move SELF-assignment, mapping = mapping with source range == destination range',
+            'tensor_t::operator=(const tensor_t<other storage>&) (the template that forwards to the storage assignment; owning destination, constant and mutable mapping source), quick tier at '
+            'ranks 1 AND 2 on real heap blocks (storage_[r2_]t_mem_assign_{cmap,map}_alias): for every valid destination shape and source shape and a source that is a separate block, a view INSIDE the '
+            'destination\'s own buffer at any offset -- including ALL of its elements under ANOTHER SHAPE (t = t.reshape(2, 6): same data(), same size(), different dims; invisible at rank 1, '
+            'where the size is the only extent) -- or a null-data view of an empty tensor: afterwards dims() == the source\'s dims, size() coefficients of live memory, coefficient g == the '
+            'source\'s coefficient g as it was before the call, *this is returned (seed C16-7: a self-assignment shortcut on data() / size() keeps the old dims)',
             'GENUINE DEFECT kept as failing obligations (tensor_t<R>::tslice/callee offset0 ASSERTED precondition ...): tslice admits begin == end == dims[0] (its own assert: begin <= end <= '
             'size<0>()) but then calls offset0(begin), whose assert (get_index0: index < dims[0]) rejects it; t.slice(n, n) and empty.slice(0, 0) abort in debug builds. The arithmetic itself is '
             'right (all other tslice obligations are proved for the whole range through the end-inclusive contract of offset0)'],
-        'not_decided': ['storage conversions: ranks >= 4; at ranks 2, 3 most operations run in the thorough tier only, '
+        'not_decided': ['indexed: the gather clause speaks about WHICH ROW is copied where (row-to-row and whole-tensor copies of the modelled shapes: first-axis row views, rank-1 elements, '
+                        'vector() = vector(), rows of reshape(n, -1).matrix()); any other copy inside an indexed overload is refused (exit 2), the coefficient VALUES inside a row are the assumed '
+                        'Eigen contract "Map = expression copies coefficient k to coefficient k"; a CORRECTED reshape-based gather (early return on an empty list) is still refuted at the reshape '
+                        'precondition by shapes like (2^62 + 1) x 0, whose first extent alone exceeds the 2^62 bound the reshape contract puts on the requested shape (modelling bound, not a library defect)',
+                        'tensor_t converting CONSTRUCTORS at rank 3: thorough tier only (ranks 1, 2: quick); an object under construction has no buffer a source could alias',
+                        'storage conversions: ranks >= 4; at ranks 2, 3 most operations run in the thorough tier only, '
                         'implicit member destruction (~tensor_vector_storage_t has no statement in the AST), allocation failure (std::bad_alloc path)', 'summed-area table VALUES: rank 3; the border cells of rank 2 (row 0 / column 0, where the recurrence has fewer terms); the region-sum formula as such (it follows from the recurrence by '
                         'telescoping: an induction over the region that is not mechanised here); floating-point outputs',
                         'Eigen Map construction itself (map_vector / map_matrix / map_tensor are constructors: their result is modelled as (pointer, extent))',
@@ -381,6 +402,13 @@ def build(tier):
                         'reshape(sizes...) precondition: every size >= 0 except at most one -1; the requested shape (-1 read as 1) has suffix products <= 2^62; without a -1 the sizes multiply to '
                         'size(); with a -1 the product of the others is NON-ZERO (otherwise the code divides by zero: reported precondition) and divides size() (otherwise the code\'s assert fails)',
                         'indexed(indices, mem&) / indexed(indices): the gathered shape is itself a valid tensor shape: indices.size() * P_1 <= 2^62',
+                        'indexed, gather clause: the asserted precondition indices.min() >= 0 && indices.max() < size<0>() is assumed at the ghost position (0 <= ig < dims[0]) and, on a non-empty '
+                        'list, as dims[0] > 0; std::is_sorted(indices.begin(), indices.end()) (ASSUMED, used only if the source calls it; an instantiated weakening of [alg.sort]): a true result '
+                        'implies that the list is monotone on every pair of positions the function has read and the ghost position, nothing follows from false; Eigen row(i) of a row-major matrix Map '
+                        '(ASSUMED): coefficients [i * cols, (i + 1) * cols), 0 <= i < rows() is an obligation; tensor begin() / end() are data() / data() + size() (their inline text)',
+                        'clang front end: a header that g++ accepts and clang rejects with "function with deduced return type cannot be used before it is defined" (a non-dependent call, inside a member '
+                        'of a class template, of a deduced-return-type member declared further down: indices.begin() inside tensor_t) is parsed with -fdelayed-template-parsing (engine/astload.py); '
+                        'the instantiated specialisations the specs extract are the same',
                         'Eigen (ASSUMED contracts): Map = expr and Map += Map copy / add coefficient k to coefficient k and require equal lengths (Eigen asserts it; a Map cannot be resized), '
                         'cast<T>() keeps the coefficients, vector.resize(n) allocates n coefficients',
                         'std::array copy assignment is element-wise; aggregate initialisation of std::array<long, N> from a braced list ([dcl.init.aggr]: element k from initialiser k, '
